@@ -894,10 +894,6 @@ package ion
 //@ ensures[C12,C19] err != nil ==> w.err != nil
 
 
-//@ func (*binaryWriter).WriteDecimal
-//@ modifies *
-//@ ensures[C12,C19] old(w.err) != nil ==> err == old(w.err) && w.err == old(w.err)
-//@ ensures[C12,C19] err != nil ==> w.err != nil
 
 //@ func (*binaryWriter).WriteTimestamp
 //@ modifies *
@@ -2182,3 +2178,28 @@ package ion
 //@ atcall-if-any[C02,C08] (*tokenizer).peekN false
 //@ atcall[C02,C08] (*tokenizer).read true
 //@ atcall[C02,C08] (*tokenizer).skipEndOfLongString true
+
+// ---------------------------------------------------------------------------
+// bits.go / binarywriter.go: the declared length of a big integer and of a decimal equals
+// the bytes written for it (C04, C01), including the extra sign byte and negative zero.
+//@ func bigIntLen
+//@ inline
+//@ requires v != nil
+//@ modifies nothing
+//@ safe[C04]
+
+//@ func appendBigInt
+//@ split returns
+//@ requires v != nil
+//@ modifies nothing
+//@ ensures[C01,C04] len(result) == len(b)+int(bigIntLen(v))
+//@ safe[C04]
+
+//@ func (*binaryWriter).WriteDecimal
+//@ split returns
+//@ requires val != nil && val.n != nil
+//@ modifies *
+//@ ensures[C12,C19] old(w.err) != nil ==> err == old(w.err) && w.err == old(w.err)
+//@ ensures[C12,C19] err != nil ==> w.err != nil
+//@ atcall[C01,C04] (*binaryWriter).writeValue#1 [vlength uint64] uint64(len(a2)) == vlength+specTagLen(vlength)
+//@ atcall[C01,C04] (*binaryWriter).writeValue#0 len(a2) == 1 && a2[0] == 0x50
